@@ -17,7 +17,9 @@ import (
 	"runtime/debug"
 	"sort"
 	"strings"
+	"sync/atomic"
 	"syscall"
+	"time"
 
 	"github.com/woodsbury/jmespath"
 
@@ -75,6 +77,29 @@ type Ctx struct {
 	nViol     int
 	violByRul map[string]int
 	Verbose   bool
+
+	caseStart atomic.Int64
+	// CaseTimeout: wall-clock watchdog per case (0: 120 s).  Its firing is
+	// never a verdict: the driver records the case as not judged.
+	CaseTimeout time.Duration
+}
+
+// StartWatchdog starts the per-case wall-clock watchdog.
+func (c *Ctx) StartWatchdog() {
+	to := c.CaseTimeout
+	if to == 0 {
+		to = 120 * time.Second
+	}
+	go func() {
+		for {
+			time.Sleep(500 * time.Millisecond)
+			st := c.caseStart.Load()
+			if st != 0 && time.Since(time.Unix(0, st)) > to {
+				fmt.Printf("CASE-TIMEOUT stream=%s idx=%d after %v\n", c.stream, c.idx, to)
+				os.Exit(4)
+			}
+		}
+	}()
 }
 
 const intentSize = 1 << 16
@@ -261,7 +286,7 @@ func (c *Ctx) RunStreams(p *Property, only, resume string) {
 				s.Setup(c)
 			}
 			c.idx = idx
-			s.Run(c, idx)
+			c.runCase(s, idx)
 			continue
 		}
 		from := c.Batch
@@ -278,7 +303,7 @@ func (c *Ctx) RunStreams(p *Property, only, resume string) {
 		}
 		for idx := from; idx < n; idx += c.NBatch {
 			c.idx = idx
-			s.Run(c, idx)
+			c.runCase(s, idx)
 			c.Counters["stream_cases:"+s.Name]++
 		}
 		if s.Exhaustive && c.Batch == 0 && resume == "" {
@@ -482,4 +507,20 @@ func Loosen(v ref.V) ref.V {
 // members (wildcard, keys, values, items).
 func Enumerates(text string) bool {
 	return strings.Contains(text, "*") || strings.Contains(text, "keys") || strings.Contains(text, "values") || strings.Contains(text, "items")
+}
+
+// runCase runs one case; a panic that escapes here is a defect of the harness
+// itself (library panics are recovered inside Observe): say so and stop, the
+// driver turns it into an inconclusive verdict.
+func (c *Ctx) runCase(s Stream, idx int) {
+	c.caseStart.Store(time.Now().UnixNano())
+	defer c.caseStart.Store(0)
+	defer func() {
+		if r := recover(); r != nil {
+			fmt.Printf("HARNESS-PANIC stream=%s idx=%d: %v\n%s\n", s.Name, idx, r, debug.Stack())
+			c.ev.Flush()
+			os.Exit(3)
+		}
+	}()
+	s.Run(c, idx)
 }
